@@ -332,6 +332,7 @@ def run(ctx):
                 "drawn index recorded; whole simulations: repairs vs logged tagging calls and completed surveys, tagged leaks "
                 "that were not repaired vs never-later / natural-first / first-tag-stays")
     core.lean_stage(ctx, MODULE, FILE, drivers=["drv_emission"])
+    EC.tie_stage(ctx)  # layer 3: the emission methods, translated from the current source, are the model's functions
     cases = EC.build_cases(ctx)
     results = EC.correspond(ctx, cases)
     for (c, res, ml, il) in results:
